@@ -35,11 +35,11 @@ CHECKS = {
     "C18": dict(level="model_checking", design="DESIGN.md section 5 C18",
                 technique="TLC model checking of Files.tla (handle table, store) + TLC validation of recorded file histories (stdout, file bytes, result)",
                 text="D: TLC explores every history of up to 6 (7) operations (OPEN in three modes, PRINT #, LINE INPUT #, EOF, CLOSE, CLOSE all, KILL) over two handles and two names and checks the handle-table / cursor invariants, that an error changes nothing but the status, that OUTPUT truncates and APPEND keeps, that PRINT # appends exactly text + CR LF, that CLOSE frees the handle and that EOF is true exactly at the end. V: straight-line programs in a scratch directory - write/close/read-back with every mix of LINE INPUT # / INPUT # incl. a read past the end, OUTPUT vs APPEND, all protocol histories of 1-2 operations and seeded ones of 3-8 over a 31-operation alphabet, RANDOM files (FIELD/LSET/PUT/GET, records in random order), console INPUT / LINE INPUT on the same texts - are run on the real interpreter; TLC runs Files.tla on each recorded history and compares stdout, the bytes of every file afterwards and the final result (codes 55/53/62 exactly, any file error 50..76 for closed / wrong-mode handles).",
-                note="Trusted: host file system in a private directory, renderer, TLC. Not judged (left open by the property): same file on two handles, re-opening an existing file FOR RANDOM, KILL/NAME of open files, pad byte of LSET (NUL read as blank), unwritable names."),
+                note="Trusted: host file system in a private directory, renderer, TLC. Not judged (left open by the property): same file on two handles, KILL/NAME of open files, LSET with several FIELD lists in force, blanks behind a field, pad byte of LSET (NUL read as blank), unwritable names."),
     "C16": dict(level="model_checking", design="DESIGN.md section 5 C16",
                 technique="TLC model checking of the column machine (Print.tla) + TLC validation of recorded PRINT histories (bytes on screen, printer, two files)",
                 text="D: over all histories of two PRINT statements built from an alphabet of items (numbers, empty/short/13-14-15-character strings, a string with an embedded CR) and separators in every position on three devices, TLC checks that the column equals the characters since the last break on that device, that a comma lands on a multiple of 14, that a statement without trailing separator ends the line and that other devices are untouched. V: the real interpreter prints item lists (numbers of every type and sign, strings incl. embedded CR/LF, leading/trailing/consecutive separators) to the screen, LPT1 and two files, alone, after pending statements on the same/another device and in random histories; PRINT USING with all formats up to length 3 (5) over {# , . \\ blank ! x}; TLC runs Print.tla on each recorded history (column invariant in every state) and compares the bytes of all four devices.",
-                note="Trusted: renderer, byte normalisation (each CR LF / lone CR / lone LF = one break token), TLC. PRINT USING judged only for unambiguous formats (comma/point with # on both sides), whole numbers that fit; non-whole number rendering not covered."),
+                note="Trusted: renderer, byte normalisation (each CR LF / lone CR / lone LF = one break token), TLC. PRINT USING judged only for unambiguous formats (comma/point with # on both sides), numbers that fit; fractional values in hundredths without ties."),
     "C10": dict(level="model_checking", design="DESIGN.md section 5 C10",
                 technique="TLC model checking that repair-by-rotation equals precedence climbing (Expr.tla) + TLC validation of the real parser's trees and literal nodes",
                 text="D: for every operator chain (all 13 binary operators up to length 3/4, unary operators in front of every operand up to length 2) TLC checks that the transcription of the parser's rotate-to-repair algorithm yields the precedence-climbing tree and keeps the operands in order. V: the REAL parser's tree for every such chain, for parenthesised spans, for class-representative chains up to 5 operators and seeded random chains up to 8 operators is compared by TLC with Prec(tokens); literal nodes for 16-bit values in decimal/&H/&O with leading zeros and sign, sampled 32-bit values, values beyond LONG and fractional literals are checked for narrowest type and exact value.",
@@ -71,7 +71,7 @@ CHECKS = {
     "C03": dict(level="model_checking", design="DESIGN.md section 5 C03",
                 technique="TLA+ reference semantics (Core.tla call actions: copy-in/copy-out, activations, statics); TLC validates recorded runs",
                 text="Call programs: 5 parameter types x 8 argument shapes (variable, array element, literal, parenthesised, expression, function call, converted, computed subscript), two-parameter copy-out order, fresh locals incl. recursion, FUNCTION results assigned 0/1/2 times, ALL call histories up to length 4/5 of a STATIC sub called directly, through another SUB, and interleaved with other subprograms, DIM SHARED and CONST identity, calls nested in argument lists in all orders, run-time errors at call depth 1-3 with call-site rows. Each recorded run is validated by TLC against Core.tla.",
-                note="Trusted: renderer, TLC. Aliased by-reference arguments are not generated (left open by the property)."),
+                note="Trusted: renderer, TLC. The same variable in two by-reference positions is judged (written back left to right)."),
     "C04": dict(level="model_checking", design="DESIGN.md section 5 C04",
                 technique="TLC model checking of Store.tla (index map bijection, frame condition) + TLC validation of VArray call records and of array/record/fixed-string programs against Core.tla",
                 text="D: TLC explores the implementation-shaped index loop for every box (1-3 dimensions, lower bounds -2..2, extents 1..4) and every tuple within one step of every face, checking agreement with the lexicographic definition, bijectivity onto 0..len-1, error exactly outside the box and the write frame condition. V: the same tuples through the real VArray::abs_index / get_element_mut, validated by Trace_Store. Programs: 10 shapes x 7 element types written in two orders and read back, LBOUND/UBOUND, one out-of-range access per face, records (nested, in arrays, copied, by reference), STRING*n through six assignment routes; validated against Core.tla.",
@@ -79,7 +79,7 @@ CHECKS = {
     "C05": dict(level="model_checking", design="DESIGN.md section 5 C05",
                 technique="TLA+ reference semantics (Core.tla jump/handler actions); TLC validates recorded trace-token runs",
                 text="Programs in which every statement prints a trace token: all GOTO source/target layouts of a skeleton in main and inside a SUB, all pairs of loop kinds left by GOTO to three landing sites, all GOSUB nesting shapes up to depth 3 (also inside loops and SUBs), RETURN without GOSUB and RETURN label, and error-trap programs (failing statement kind x host block x position x handler mode, failing block headers, all orders of ON ERROR GOTO / RESUME NEXT / GOTO 0). Each recorded run is validated by TLC against Core.tla.",
-                note="Trusted: renderer, TLC. Not generated: RESUME NEXT on failing block headers; errors inside callees while a handler is active (left open by the property)."),
+                note="Trusted: renderer, TLC. Not generated: RESUME NEXT on failing block headers. An error inside a handler is not fixed by the property (skipped by the spec)."),
     "C01": dict(level="model_checking", design="DESIGN.md section 5 C01",
                 technique="TLA+ reference semantics (Core.tla); TLC validates recorded runs of the real interpreter",
                 text="Families of core-language programs (all ordered pairs and selected triples of 14 block constructs, "
